@@ -108,7 +108,7 @@ impl Property for C08 {
         ]
     }
     fn exhaustive_subdomains(&self, _tier: Tier) -> Vec<String> {
-        vec!["all (a,b,joiner) in [1,99]x[0,99]x{space,conjunction} with canonical spellings, 7 languages".into(), "all dictated digit strings of length <= 4, canonical digit words, 7 languages".into()]
+        vec!["all (a,b,joiner) in [1,99]x[0,99]x{space,conjunction} with canonical spellings, 7 languages".into(), "every spelling variant of both sides for a in {10,20,..,90}, b < 20, both joiners, 7 languages".into(), "all dictated digit strings of length <= 4, canonical digit words, 7 languages".into()]
     }
     fn strategy(&self, _tier: Tier) -> BoxedStrategy<Case> {
         let pair = (lang_strategy(), 1u64..100, 0u64..100, any::<bool>(), choices(), choices()).prop_map(|(lang, a, b, conj, ca, cb)| Case { lang, kind: "pair".into(), a, b, conj, ca, cb, d: String::new(), zsel: vec![] });
@@ -129,6 +129,33 @@ impl Property for C08 {
                 return;
             }
         }
+        // every spelling variant of both sides for a bare ten a in {10,20,..,90} and every b < 20, both joiners:
+        // the unit guards ("not after a bare ten") have one arm per word form, variants included
+        {
+            let mut k = 0u64;
+            for lang in LANGS {
+                for a in (10..100u64).step_by(10) {
+                    let va: Vec<String> = spell::all_variants(lang, a).into_iter().collect();
+                    for b in 0..20u64 {
+                        let vb: Vec<String> = spell::all_variants(lang, b).into_iter().collect();
+                        for (ia, _) in va.iter().enumerate() {
+                            for (ib, _) in vb.iter().enumerate() {
+                                for conj in [false, true] {
+                                    k += 1;
+                                    if k as usize % nshards != shard {
+                                        continue;
+                                    }
+                                    let c = Case { lang: lang.to_string(), kind: "pair-variants".into(), a, b, conj, ca: vec![ia as u8], cb: vec![ib as u8], d: String::new(), zsel: vec![] };
+                                    if !emit(c) {
+                                        return;
+                                    }
+                                }
+                            }
+                        }
+                    }
+                }
+            }
+        }
         let mut ds: Vec<String> = vec![];
         for len in 1..=4usize {
             for v in 0..10u32.pow(len as u32) {
@@ -143,9 +170,14 @@ impl Property for C08 {
         }
     }
     fn known_signature(&self, c: &Case) -> Option<&'static str> {
-        if c.lang == "fr" && c.kind == "pair" && c.a == 80 && (10..20).contains(&c.b) {
-            let wa = spell::cardinal("fr", c.a, &mut Bytes::new(&c.ca));
-            if wa.iter().any(|w| w == "huitante" || w == "octante") {
+        if c.lang == "fr" && c.kind != "dictation" && c.a == 80 && (10..20).contains(&c.b) {
+            let wa: Vec<String> = if c.kind == "pair-variants" {
+                let v: Vec<String> = spell::all_variants("fr", c.a).into_iter().collect();
+                v[(c.ca.first().copied().unwrap_or(0) as usize).min(v.len() - 1)].split(' ').map(|x| x.to_string()).collect()
+            } else {
+                spell::cardinal("fr", c.a, &mut Bytes::new(&c.ca))
+            };
+            if wa.iter().any(|w| w.split('-').any(|p| p == "huitante" || p == "octante")) {
                 return Some("fr-huitante-dix");
             }
         }
@@ -179,8 +211,19 @@ impl Property for C08 {
         }
         // pairs -----------------------------------------------------------------------------------
         let cj = spell::conjunction(l);
-        let wa = if c.ca.is_empty() { spell::cardinal(l, c.a, &mut Canon) } else { spell::cardinal(l, c.a, &mut Bytes::new(&c.ca)) };
-        let wb = if c.cb.is_empty() { spell::cardinal(l, c.b, &mut Canon) } else { spell::cardinal(l, c.b, &mut Bytes::new(&c.cb)) };
+        let (wa, wb): (Vec<String>, Vec<String>) = if c.kind == "pair-variants" {
+            // ca[0] / cb[0] index the (sorted) set of all spelling variants
+            let pick = |n: u64, i: usize| -> Vec<String> {
+                let v: Vec<String> = spell::all_variants(l, n).into_iter().collect();
+                v[i.min(v.len() - 1)].split(' ').map(|x| x.to_string()).collect()
+            };
+            (pick(c.a, c.ca.first().copied().unwrap_or(0) as usize), pick(c.b, c.cb.first().copied().unwrap_or(0) as usize))
+        } else {
+            (
+                if c.ca.is_empty() { spell::cardinal(l, c.a, &mut Canon) } else { spell::cardinal(l, c.a, &mut Bytes::new(&c.ca)) },
+                if c.cb.is_empty() { spell::cardinal(l, c.b, &mut Canon) } else { spell::cardinal(l, c.b, &mut Bytes::new(&c.cb)) },
+            )
+        };
         let mut w = wa.clone();
         if c.conj {
             w.push(cj.into());
